@@ -1,3 +1,4 @@
+import re
 """Per-property configuration for check.py / gen_manifest.py and the narrow matchers of known findings."""
 
 NOTE_COMMON = ("Trusted: Coq kernel + vm_compute; the hand-written Gallina model is tied to the Go code by the "
@@ -65,6 +66,9 @@ PROPS["C04"] = {
     "assumptions": ["JSON text layer: parse(print(tree)) = tree"],
 }
 
+PROPS["C04"]["extra_property_files"] = list(PROPS["C04"].get("extra_property_files", [])) + ["C04_k5"]
+PROPS["C04"]["level_text"] += " Recorded finding K5 (Properties/C04_k5.v, a refutation witness): a version-1 generic token whose data holds a non-integer \"version\" is refused by the version-2 decoder's kind/version probe."
+
 PROPS["C17"] = {
     "race": True,
     "level_text": "PARTIAL. Theorems (Properties/C17.v): for any number of threads, any programs and EVERY schedule, if no operation writes the shared store then each thread gets exactly the results and final object of running alone and the store is unchanged; steps of different threads never conflict. The hypothesis is discharged on the inventory GENERATED from the code by go/ssa on every run: no package variable of the two packages - and no package variable of any OTHER package (standard library, nkeys) - is stored to or through outside initialisation, its value reaches only regexp methods documented concurrency-safe, and the public read-only queries do not store through receiver or arguments. What the model cannot exhibit (races inside the Go runtime, the standard library and nkeys; writes invisible to SSA such as unsafe/reflection) is only exercised: N goroutines on own objects decoded from the same token text and read-only queries on shared objects under the race detector at GOMAXPROCS 1/2/4/16, results compared with a sequential run.",
@@ -130,8 +134,8 @@ SOURCE_TIE = {
     "C01": ("C01_source", "jwt.Decode with loadClaims and parseHeaders (accepts exactly what the model's decode accepts, same kind and issuer), ClaimsData.verify, identifier.Version"),
     "C02": (["C02_source", "C02_source_encode"], "the six typed decoders (each against the model's decode_typed), identifier.Kind; on the Encode side ClaimsData.doEncode's role rule and every kind's Encode (refusing whenever the model's encode_gate refuses)"),
     "C05": (["C05_source", "C05_source_encode"], "Header.Valid, parseHeaders, loadClaims; on the Encode side ClaimsData.doEncode (version-2 algorithm only, three segments, signature over header-dot-claims)"),
-    "C06": (["C06_source", "C06_source_imports", "C06_source_exports"], "Subject.countTokenWildcards, Subject.Validate, ServiceLatency.Validate, Export.Validate (with the Export kind / response-type predicates); Imports.Validate (the walk over the import list with its set of delivery subjects, every pair compared both ways) against the model's v_imports; Exports.Validate with its overlap scan isContainedIn (one blocking issue per distinct containing subject) against the model's v_exports / v_overlaps"),
-    "C07": ("C07_source", "ClaimsData.Validate (v2 and v1compat), the time checks every kind delegates to"),
+    "C06": (["C06_source", "C06_source_imports", "C06_source_exports", "C06_source_limits", "C07_source_results"], "Subject.countTokenWildcards, Subject.Validate, ServiceLatency.Validate, Export.Validate (with the Export kind / response-type predicates); Imports.Validate (the walk over the import list with its set of delivery subjects, every pair compared both ways) against the model's v_imports; Exports.Validate with its overlap scan isContainedIn (one blocking issue per distinct containing subject) against the model's v_exports / v_overlaps; OperatorLimits.Validate (tiers versus flat JetStream limits, blank tier names) against v_op_limits; and the validation results themselves (Properties/C07_source_results.v)"),
+    "C07": (["C07_source", "C07_source_results"], "the validation results themselves - CreateValidationResults, Add, AddError, AddWarning, AddTimeCheck, IsBlocking, IsEmpty, Errors, Warnings of both packages (a results object is its list of issues: nothing dropped, capped, replaced or shared) - and ClaimsData.Validate (v2 and v1compat), the time checks every kind delegates to"),
     "C08": ("C08_source", "OperatorClaims.DidSign and AccountClaims.DidSign"),
     "C09": ("C09_source", "RevocationList.Revoke / ClearRevocation / IsRevoked / allRevoked / MaybeCompact (v2 and v1compat), AccountClaims.IsClaimRevoked / isRevoked, Export.IsClaimRevoked / isRevoked"),
     "C12": ("C12_source", "ClaimsData.doEncode (what a successful Encode did, in order, with an effect log; completeness; the empty token on failure), ClaimsData.encode and the Encode of all seven kinds, each proved to return what the model's encode returns under the full gate, with the same claims object afterwards"),
@@ -160,9 +164,8 @@ def _k3(v):
 
 def _known_tag(tag):
     def f(v):
-        return str(v.get("what", "")).startswith("C03 known:") and tag in ((v.get("input") or {}).get("known") or []) \
-            or str(v.get("what", "")).startswith("C14 known:") and tag in ((v.get("input") or {}).get("known") or [])
+        return re.match(r"C\d\d known:", str(v.get("what", ""))) is not None and tag in ((v.get("input") or {}).get("known") or [])
     return f
 
 
-KNOWN_MATCHERS = {"K3": _k3, "K1": _known_tag("K1"), "K2": _known_tag("K2"), "K4": _known_tag("K4")}
+KNOWN_MATCHERS = {"K3": _k3, "K1": _known_tag("K1"), "K2": _known_tag("K2"), "K4": _known_tag("K4"), "K5": _known_tag("K5")}
